@@ -8,8 +8,63 @@ TIERS = {
     'quick': {'runs': 24000, 'budget_s': 60, 'batch': 200},
     'thorough': {'runs': 500000, 'budget_s': 900, 'batch': 400},
 }
-generate = _hist.make_generate('c04')
-execute = _hist.make_execute(('C04.', 'C11.read'))
+import copy
+import hashlib
+
+from simkit import kernel as K
+from worlds import valorder_world as VO
+
+_gen_hist = _hist.make_generate('c04')
+_exec_hist = _hist.make_execute(('C04.', 'C11.read'))
+_shrink_hist = shrink
+_rec_hist = with_recording
+
+
+def generate(seed, idx, tier):
+    if idx % 10 == 7:
+        rng = K.derive_rng(seed, 'valorder')
+        n = rng.choice([2, 3, 3, 4])
+        items = [VO.make_item(rng, i) for i in range(n)]
+        o1 = list(range(n))
+        o2 = list(range(n))
+        while o2 == o1:
+            rng.shuffle(o2)
+        return {'world': 'valorder', 'seed': seed, 'items': items, 'orders': [o1, o2]}
+    return _gen_hist(seed, idx, tier)
+
+
+def execute(case):
+    if case.get('world') != 'valorder':
+        return _exec_hist(case)
+    res, viol = VO.execute(case)
+    digest = hashlib.sha1(repr(res).encode()).hexdigest()
+    refs = {it['ref'] for it in case['items']}
+    return {'violations': viol, 'digest': digest, 'probes': {'c04_order_run': 1, 'c04_order_run_mixed_references': int(len(refs) > 1)},
+            'faults': {'validation_order_permuted': 1}, 'nontrivial': len(refs) > 1, 'ilv': '', 'sim_us': 0, 'lines': 0,
+            'schedule': [], 'fault_plan': [], 'states': [], 'ops': len(case['items']),
+            'sample': {'items': [{'ref': it['ref'], 'edits': it['edits'], 'text': it['text'][:80]} for it in case['items']],
+                       'orders': case['orders']}}
+
+
+def with_recording(case, res):
+    if case.get('world') == 'valorder':
+        return copy.deepcopy(case)
+    return _rec_hist(case, res)
+
+
+def shrink(case):
+    if case.get('world') != 'valorder':
+        for c in _shrink_hist(case):
+            yield c
+        return
+    n = len(case['items'])
+    if n > 2:
+        for j in range(n):
+            c = copy.deepcopy(case)
+            del c['items'][j]
+            c['orders'] = [[x - (1 if x > j else 0) for x in o if x != j] for o in case['orders']]
+            if c['orders'][0] != c['orders'][1]:
+                yield c
 
 RULE = ('each run = one seeded history of 2..8 operations on a Message or Segment (parsed or built), 38% of them validate() '
         'variants: return_errors twice, raising form, report to a path (simulated file system) and to a file-like object, with '
@@ -19,13 +74,16 @@ RULE = ('each run = one seeded history of 2..8 operations on a Message or Segmen
         'reached state every structural defect the reference model predicts from the tables (required child missing, maximum '
         'exceeded, child not allowed, restructured datatype) is named by an error, while a state reached from a cleanly '
         'validating start by valid writes without predicted defect must still validate; '
-        'non-trivial = >= 2 operations, >= 1 accepted')
+        'non-trivial = >= 2 operations, >= 1 accepted; one run in ten is an order run instead: 2-4 RSP_K21 variants validated '
+        'against the standard tables or the shipped ITI-21 profile, in two different orders, each order in a fresh fork with cold '
+        'caches -- the per-item reports must not depend on the order')
 
 
 def required_probes(tier):
     return ['c04_errors_form', 'c04_raise_with_errors', 'c04_raise_valid', 'c04_report_exact', 'c04_report_nonempty',
             'c04_report_fault_fired', 'c04_valid_state', 'c04_invalid_state', 'c04_verdict_checked', 'c04_predicted_defect_missing',
-            'c04_predicted_defect_exceeded', 'c04_conforming_state_checked', 'report_file_open_error',
+            'c04_predicted_defect_exceeded', 'c04_conforming_state_checked', 'c04_order_run_mixed_references',
+            'report_file_open_error',
             'report_file_write_error', 'report_file_close_error']
 
 
